@@ -24,6 +24,8 @@ def build_setting(lib, f):
         return lib.AnsiSetting(f['v'])
     if k == 'aset_astr':      # AnsiSetting built from an AnsiStr (a str): its TEXT is the setting
         return lib.AnsiSetting(lib.AnsiStr(f['v'], 'red'))
+    if k == 'str_astr':       # a name / code string given as an AnsiStr (a str): read like the same str
+        return lib.AnsiStr(f['v'], 'red')
     if k == 'verb_astr':      # '[...' given as an AnsiStr
         return lib.AnsiStr('[' + f['v'], 'bold')
     if k == 'list':
